@@ -786,7 +786,7 @@ def limit_digits(ops):
 
 
 def keys_case(vi, ml, ro, text, cur, hist, clip, ops, hs=False, sug=False, val=False):
-    c = {"kind": "keys", "vi": vi, "ml": ml, "ro": ro, "hs": hs, "text": text, "cur": cur, "hist": hist,
+    c = {"kind": "keys", "vi": vi, "ml": ml, "ro": ro, "hs": hs, "text": text, "cur": min(cur, len(text)), "hist": hist,
          "clip": clip[0], "clip_type": clip[1], "ops": limit_digits(list(ops))}
     if sug:
         c["sug"] = True     # auto-suggestion from the history
